@@ -143,11 +143,79 @@ def _norm_func(fn: FuncInfo) -> str:
     return ast.dump(node, include_attributes=False)
 
 
+def _filter_truth_table(ctx, f: FuncInfo) -> tuple[bool, str]:
+    from itertools import product
+
+    from ..flow import FlowAnalysis
+    from ..logic import eval3
+
+    r = ctx.resolver(f)
+
+    def atom(e):
+        e2 = r.expand(e) if isinstance(e, ast.Name) else e
+        if e2 is not e:
+            return e2
+        if isinstance(e, ast.Attribute) and e.attr in ("line_exclude", "line_include"):
+            return "E" if e.attr == "line_exclude" else "I"
+        if isinstance(e, ast.Call) and call_name(e) == "any" and len(e.args) == 1 and isinstance(e.args[0], (ast.GeneratorExp, ast.ListComp)):
+            g = e.args[0]
+            it = r.expand(g.generators[0].iter) if len(g.generators) == 1 else None
+            if isinstance(it, ast.Attribute) and it.attr in ("line_exclude", "line_include") and isinstance(g.elt, ast.Call) and (last_attr(g.elt.func) or "").endswith("match_line") and not g.generators[0].ifs:
+                return "ME" if it.attr == "line_exclude" else "MI"
+        if isinstance(e, ast.Compare) and len(e.ops) == 1 and isinstance(e.left, ast.Call) and call_name(e.left) == "len" and e.left.args and isinstance(e.comparators[0], ast.Constant) and e.comparators[0].value == 0:
+            inner = atom(e.left.args[0])
+            if isinstance(inner, str):
+                if isinstance(e.ops[0], ast.Eq):
+                    return "!" + inner
+                if isinstance(e.ops[0], (ast.Gt, ast.NotEq)):
+                    return inner
+        return None
+
+    fa = FlowAnalysis(f.node)
+    exits = [e for e in fa.exits if e.kind != "raise"]
+    if not exits:
+        return False, "no return"
+    for E, I, ME, MI in product([True, False], repeat=4):
+        if (ME and not E) or (MI and not I):
+            continue
+        env = {"E": E, "I": I, "ME": ME, "MI": MI}
+        want = (not ME) if E else (MI if I else True)
+        got = set()
+        for ex in exits:
+            for must, _may in ex.state.parts:
+                consistent = True
+                for pol, txt in must:
+                    if txt.startswith(("EV:", "MATCH:", "ITER:")):
+                        continue
+                    try:
+                        fe = ast.parse(txt, mode="eval").body
+                    except SyntaxError:
+                        continue
+                    v = eval3(fe, atom, env)
+                    if v is not None and v != pol:
+                        consistent = False
+                        break
+                if not consistent:
+                    continue
+                val = ex.value
+                if ex.kind == "end" or val is None:
+                    got.add(False)  # None is falsy
+                else:
+                    v = eval3(val, atom, env)
+                    if v is None:
+                        raise AnalysisError(f"{f.qname}: returned expression `{unparse(val)[:60]}` not understood as a combination of line-filter atoms")
+                    got.add(v)
+        if got != {want}:
+            return False, f"with exclude-given={E} include-given={I} matches-exclude={ME} matches-include={MI} it answers {sorted(got)} instead of {want}"
+    return True, ""
+
+
 def rule_filter_sibling(ctx, rep):
     rep.rule(
         "R-FILTER-SIBLING",
-        "core_codemods.remove_unused_imports re-implements filter_by_path_includes_or_excludes and match_line; both copies are "
-        "AST-equal to the ones in codemodder.codemods.base_visitor (modulo docstrings/annotations)",
+        "every implementation of the line filter (base_visitor's, and the copy in core_codemods.remove_unused_imports while it exists) "
+        "computes the same truth table: not matches-exclude if excludes are given, else matches-include if includes are given, else True; "
+        "match_line requires start and end line to equal the given line",
         min_instances=2,
     )
     pairs = [
@@ -156,21 +224,29 @@ def rule_filter_sibling(ctx, rep):
     ]
     for a, b in pairs:
         fa = ctx.prog.func(a)
-        fb = ctx.prog.functions.get(b)
-        if fb is None:
+        if ctx.prog.functions.get(b) is None:
             rep.instance("R-FILTER-SIBLING", b, fa.loc(), True, detail="copy removed (the shared implementation is used)")
-            continue
-        rep.check("R-FILTER-SIBLING", b, fb.loc(), _norm_func(fa) == _norm_func(fb), "ast-equal",
-                  f"{b} diverges from {a}: the same `path:line` pattern is interpreted differently by this codemod")
-    # the shared filter itself: excludes shadow includes, default True; match_line compares start and end line with the pattern line
+    # the shared filter itself, decided as a truth table over  E = exclude lines given, I = include lines given,
+    # ME / MI = the position matches one of them:   result == (not ME if E else (MI if I else True))
     f = ctx.prog.func(pairs[0][0])
-    txt = unparse(f.node)
-    ok = "if self.line_exclude" in txt and "if self.line_include" in txt and txt.index("self.line_exclude") < txt.index("self.line_include") and "return True" in txt and "not any(" in txt
-    rep.check("R-FILTER-SIBLING", f.qname, f.loc(), ok, "filter-shape", "filter_by_path_includes_or_excludes lost its exclude-first / include / default-true structure")
-    ml = ctx.prog.func(pairs[1][0])
-    cmp_ = [n for n in walk_no_nested(ml.node) if isinstance(n, ast.Compare)]
-    ok = len(cmp_) == 2 and all(isinstance(c.ops[0], ast.Eq) for c in cmp_) and {"pos.start.line", "pos.end.line"} <= {unparse(c.left) for c in cmp_}
-    rep.check("R-FILTER-SIBLING", ml.qname, ml.loc(), ok, "match_line-shape", "match_line no longer requires start and end line to equal the given line")
+    ok, why = _filter_truth_table(ctx, f)
+    rep.check("R-FILTER-SIBLING", f.qname, f.loc(), ok, "filter-shape", "filter_by_path_includes_or_excludes no longer computes exclude-first / include / default-true: " + why)
+    fb = ctx.prog.functions.get(pairs[0][1])
+    if fb is not None:
+        ok, why = _filter_truth_table(ctx, fb)
+        rep.check("R-FILTER-SIBLING", fb.qname, fb.loc(), ok, "filter-shape", "the codemod's own copy of the line filter no longer computes exclude-first / include / default-true: " + why)
+    for q in pairs[1]:
+        ml = ctx.prog.functions.get(q)
+        if ml is None:
+            continue
+        pp = ml.positional_params()
+        cmp_ = [n for n in walk_no_nested(ml.node) if isinstance(n, ast.Compare)]
+        # both ends of the position equal the given line, conjunctively
+        lefts = {unparse(c.left) for c in cmp_ if isinstance(c.ops[0], ast.Eq) and len(pp) >= 2 and unparse(c.comparators[0]) == pp[1]}
+        lefts |= {unparse(c.comparators[0]) for c in cmp_ if isinstance(c.ops[0], ast.Eq) and len(pp) >= 2 and unparse(c.left) == pp[1]}
+        conj = not any(isinstance(n, ast.BoolOp) and isinstance(n.op, ast.Or) for n in walk_no_nested(ml.node))
+        ok = len(pp) >= 2 and {f"{pp[0]}.start.line", f"{pp[0]}.end.line"} <= lefts and conj and len(cmp_) == 2
+        rep.check("R-FILTER-SIBLING", ml.qname, ml.loc(), ok, "match_line-shape", "match_line no longer requires start and end line to equal the given line")
 
 
 def rule_original_node_position(ctx, rep):
